@@ -52,9 +52,9 @@ def make_image(darsia, rng, cfg):
         kw["name"] = "probe image"
     if cfg["origin"] == "user":
         kw["origin"] = [1.5 * (a + 1) for a in range(n)]
-    if cfg["timekind"] == "dates":
+    if cfg["timekind"] in ("dates", "both"):
         kw["date"] = [BASE_DATE + datetime.timedelta(seconds=7 * i) for i in range(T)] if cfg["series"] else BASE_DATE
-    elif cfg["timekind"] == "times":
+    if cfg["timekind"] in ("times", "both"):
         kw["time"] = [2.5 * i + 1 for i in range(T)] if cfg["series"] else 4.5
     with warnings.catch_warnings():
         warnings.simplefilter("ignore")
@@ -182,7 +182,7 @@ def run(ck, replay=None):
     rng = random.Random(ck.seed)
     quick = ck.tier == "quick"
     work = tempfile.mkdtemp(prefix="c18-", dir=ck.work)
-    sel = cfgs if not quick else rng.sample(cfgs, 120)
+    sel = cfgs if not quick else rng.sample(cfgs, 160)
     events = []
     for i, cfg in enumerate(sel):
         events.append(npz_event(darsia, rng, cfg, f"npz:{i}", work))
@@ -209,7 +209,7 @@ def run(ck, replay=None):
         ck.violation(sig, f"{e['op']} violates {b['clause']}", {k: v for k, v in e.items() if k in ("cfg", "fmt", "bits", "layout", "cls", "rcls", "error")} | ({"before": {k: v for k, v in e["before"].items() if k != "tags"}, "after": {k: v for k, v in e["after"].items() if k != "tags"}} if e["op"] == "npz" else {}))
     ck.cov["evaluations"] = len(events)
     ck.cov["distinct_nontrivial"] = len({json.dumps(e.get("cfg", [e.get("fmt"), e.get("bits"), e.get("layout"), e.get("cls")]), sort_keys=True) for e in events})
-    ck.cov["rule"] = "metadata configurations enumerated by TLC (720: dim x series x scalar x dtype x time kind x name x origin), each saved and reloaded with an arange payload; all 12 byte formats (png/tiff x 8/16 bit x grey/single-channel/colour); optical write/read for 8/16 bit; save/read_correction for type, drift, curvature, illumination and colour corrections"
+    ck.cov["rule"] = "metadata configurations enumerated by TLC (960: dim x series x scalar x dtype x time kind (dates / times / both / none) x name x origin), each saved and reloaded with an arange payload; all 12 byte formats (png/tiff x 8/16 bit x grey/single-channel/colour); optical write/read for 8/16 bit; save/read_correction for type, drift, curvature, illumination and colour corrections"
     ck.cov["exhaustive"] = not quick
     ck.cov["samples"] = [events[0]["cfg"], {k: v for k, v in events[0]["before"].items() if k != "tags"}]
     ck.assumptions += ["files are written under a run-private temporary directory and removed", "colour correction is saved in inactive configuration (an active one needs a colour-checker image)"]
